@@ -32,10 +32,10 @@ def configs(tier):
     pct = ["10", "25", "50", "75", "90", "100", "110", "-5"]
     sci = [("a", "1.5e+2"), ("p", "2.5e+1"), ("p", "5e-1"), ("a", "6e-1"), ("p", "1e-3")]  # signed exponents
     absv += ["1e3", "0.5", "400000", "1234."]  # '1234.' is the spelling of the Mixture docstring; it ends in the separator's characters
-    pct += ["33.3", "12.5", "2.5"]
+    pct += ["33.3", "12.5", "2.5", "99.9"]
     if tier == "thorough":
         absv += ["12345.678"]
-        pct += ["0.1", "99.9"]
+        pct += ["0.1", "99.99"]
     nmax = 5
     for n in range(1, nmax + 1):
         opts = [("a", v) for v in absv] + [("p", v) for v in pct]
